@@ -69,3 +69,229 @@ pub fn c07(seed: u64, n: usize) {
         emit_c07(fam, r.below(3).min(2) * 0 + [0usize, 2][r.below(2)], &f, &t, r.unit(), &angles);
     }
 }
+
+// ---------------------------------------------------------------- C18 sampler
+pub fn c18(seed: u64, n: usize) {
+    let mut r = Rng::new(seed ^ 0xC18);
+    let draws = if n >= 5000 { 1000 } else { 200 };
+    let sets = (n / 5).max(40);
+    for i in 0..sets {
+        let mut f = [0.0; 6]; let mut t = [0.0; 6];
+        let fam = match i % 8 {
+            0 => { for k in 0..6 { f[k] = r.range(-2.0 * PI, 2.0 * PI); t[k] = r.range(-2.0 * PI, 2.0 * PI); } "any" }
+            1 => { for k in 0..6 { f[k] = r.range(0.5, 2.0 * PI); t[k] = r.range(0.0, f[k] - 0.01); } "wrap-both-positive" }
+            2 => { for k in 0..6 { t[k] = r.range(-2.0 * PI, -0.5); f[k] = r.range(t[k] + 0.01, 0.0); } "wrap-both-negative" }
+            3 => { for k in 0..6 { f[k] = r.range(0.01, 2.0 * PI); t[k] = r.range(-2.0 * PI, -0.01); } "wrap-straddling-zero" }
+            4 => { for k in 0..6 { f[k] = r.range(-2.0 * PI, 2.0 * PI); t[k] = if r.chance(0.5) { f[k] } else { r.range(-2.0 * PI, 2.0 * PI) }; } "some-equal" }
+            5 => { for k in 0..6 { f[k] = r.range(-2.0 * PI, 0.0); t[k] = f[k] + r.range(1e-6, 4.0 * PI); } "ordinary" }
+            6 => { for k in 0..6 { f[k] = r.range(PI, 2.0 * PI); t[k] = f[k] - r.range(2.0 * PI + 0.01, 3.9 * PI).min(f[k] + 2.0 * PI); } "wrap-over-a-turn" }
+            _ => { for k in 0..6 { f[k] = *r.pick(&[5.0, 6.0, 2.0 * PI, 3.0, 1.0]); t[k] = *r.pick(&[4.0, 0.5, 0.0, -1.0, 2.5]); if (f[k] - t[k] - 2.0 * PI).abs() < 1e-9 { t[k] += 0.1; } } "special" }
+        };
+        // keep away from limits that are congruent modulo a turn (zero-width arcs; rounding decides)
+        for k in 0..6 {
+            let d = (t[k] - f[k]).rem_euclid(2.0 * PI);
+            if f[k] != t[k] && (d < 1e-6 || 2.0 * PI - d < 1e-6) { t[k] += 0.01; }
+        }
+        let c = Constraints::new(f, t, 0.0);
+        let mut l = Line::new("C18", fam, "c18");
+        l.j6(&f).j6(&t).arrow();
+        let out = catch(std::panic::AssertUnwindSafe(|| {
+            let mut v = Vec::with_capacity(draws);
+            for _ in 0..draws { let a = c.random_angles(); v.push((a, c.compliant(&a))); }
+            v
+        }));
+        match out {
+            Some(v) => { l.n(v.len()); for (a, ok) in v { l.j6(&a).b(ok); } }
+            None => { l.s("panic"); }
+        }
+        l.emit();
+    }
+}
+
+// ---------------------------------------------------------------- C17 frames
+use nalgebra::{Isometry3, Point3, Translation3, Vector3};
+use rs_opw_kinematics::frame::{ColinearPoints, Frame, NotIsometry};
+
+fn pt(l: &mut Line, p: &Point3<f64>) { l.f(p.x).f(p.y).f(p.z); }
+
+fn emit_frame(fam: &str, p: [Point3<f64>; 3], q: [Point3<f64>; 3], g: Option<&Isometry3<f64>>) {
+    let mut l = Line::new("C17", fam, "frame");
+    for x in &p { pt(&mut l, x); }
+    for x in &q { pt(&mut l, x); }
+    match g { Some(g) => { l.n(1).iso(g); } None => { l.n(0); } }
+    l.arrow();
+    match catch(std::panic::AssertUnwindSafe(|| Frame::frame(p[0], p[1], p[2], q[0], q[1], q[2]))) {
+        None => { l.s("panic"); }
+        Some(Ok(iso)) => { l.s("ok").iso(&iso); }
+        Some(Err(e)) => {
+            let kind = if e.downcast_ref::<NotIsometry>().is_some() { 0 }
+                else if let Some(c) = e.downcast_ref::<ColinearPoints>() { if c.source { 1 } else { 2 } } else { 9 };
+            l.s("err").n(kind);
+        }
+    }
+    l.emit();
+}
+
+pub fn c17(seed: u64, n: usize) {
+    let mut r = Rng::new(seed ^ 0xC17);
+    for i in 0..n {
+        let scale = *r.pick(&[1e-3, 1e-2, 0.1, 1.0, 1.0, 10.0, 100.0, 1e3]);
+        let off = if r.chance(0.3) { Vector3::new(r.range(-1e3, 1e3), r.range(-1e3, 1e3), r.range(-1e3, 1e3)) } else { Vector3::zeros() };
+        let rp = |r: &mut Rng| Point3::from(Vector3::new(r.range(-1.0, 1.0), r.range(-1.0, 1.0), r.range(-1.0, 1.0)) * scale + off);
+        let g = rand_iso(&mut r, 2.0 * scale);
+        match i % 10 {
+            0..=4 => {
+                let p = [rp(&mut r), rp(&mut r), rp(&mut r)];
+                let q = [g * p[0], g * p[1], g * p[2]];
+                emit_frame(&format!("rigid/scale{:.0e}", scale), p, q, Some(&g));
+            }
+            5 => {
+                // nearly collinear source: sine of the angle down to 1e-6
+                let p1 = rp(&mut r); let d = Vector3::new(r.range(-1.0, 1.0), r.range(-1.0, 1.0), r.range(-1.0, 1.0)).normalize() * scale;
+                let n0 = d.cross(&Vector3::new(0.3, -0.7, 0.5)).normalize() * scale;
+                let s = *r.pick(&[1e-1, 1e-2, 1e-3, 1e-4, 1e-6]);
+                let p = [p1, p1 + d, p1 + d * 2.3 + n0 * s];
+                let q = [g * p[0], g * p[1], g * p[2]];
+                emit_frame(&format!("nearly-collinear/{:.0e}", s), p, q, Some(&g));
+            }
+            6 => {
+                // exactly collinear source (representable): p3 = p1 + 2 (p2 - p1) on a binary grid
+                let gr = |r: &mut Rng| (r.below(64) as f64 - 32.0) / 8.0;
+                let p1 = Point3::new(gr(&mut r), gr(&mut r), gr(&mut r));
+                let d = Vector3::new(gr(&mut r), gr(&mut r), gr(&mut r) + 0.125);
+                let p = [p1, p1 + d, p1 + d * 2.0];
+                // images with the same mutual distances but not collinear cannot exist; use the same collinear triple moved by a translation
+                let tr = Vector3::new(gr(&mut r), gr(&mut r), gr(&mut r));
+                let q = [p[0] + tr, p[1] + tr, p[2] + tr];
+                emit_frame("collinear-source", p, q, None);
+            }
+            7 => {
+                // collinear target with matching distances: source is a degenerate... use near-collinear source within tolerance
+                let gr = |r: &mut Rng| (r.below(64) as f64 - 32.0) / 8.0;
+                let q1 = Point3::new(gr(&mut r), gr(&mut r), gr(&mut r));
+                let d = Vector3::new(1.0, 0.0, 0.0) * (1.0 + r.below(4) as f64);
+                let q = [q1, q1 + d, q1 + d * 2.0];
+                // source: same lengths, bent by 1 mm out of line (distance differences far below 5 mm)
+                let p1 = Point3::new(gr(&mut r), gr(&mut r), gr(&mut r));
+                let e = Vector3::new(0.0, 1.0, 0.0) * d.norm();
+                let p = [p1, p1 + e, p1 + e * 2.0 + Vector3::new(0.001, 0.0, 0.0)];
+                emit_frame("collinear-target", p, q, None);
+            }
+            _ => {
+                // one image moved along an edge by 1..9 mm (kept 1 % away from the 5 mm guard)
+                let p = [rp(&mut r), rp(&mut r), rp(&mut r)];
+                let mut q = [g * p[0], g * p[1], g * p[2]];
+                let mm = *r.pick(&[1.0, 2.0, 3.0, 4.0, 4.9, 5.1, 6.0, 7.0, 9.0]) * 0.001;
+                let which = r.below(3);
+                let other = (which + 1 + r.below(2)) % 3;
+                let edge = (q[which] - q[other]).normalize();
+                q[which] = q[which] + edge * mm;
+                emit_frame(&format!("perturbed/{:.1}mm", mm * 1000.0), p, q, None);
+            }
+        }
+        if i % 5 == 0 {
+            let p = rp(&mut r); let q = rp(&mut r);
+            let iso = Frame::translation(p, q);
+            let mut l = Line::new("C17", "translation", "frame_tr");
+            pt(&mut l, &p); pt(&mut l, &q); l.arrow().iso(&iso); l.emit();
+        }
+        if i % 3 == 0 {
+            // forward_transformed
+            let (rfam, prm) = gen_params(&mut r);
+            let ks = KSpec::bare(prm);
+            let fr = Isometry3::from_parts(Translation3::new(r.range(-0.05, 0.05), r.range(-0.05, 0.05), r.range(-0.05, 0.05)),
+                                           nalgebra::UnitQuaternion::from_scaled_axis(Vector3::new(r.range(-0.05, 0.05), r.range(-0.05, 0.05), r.range(-0.05, 0.05))));
+            let f = Frame { robot: ks.build(), frame: fr };
+            let qs = rand_joints(&mut r, PI);
+            let prev = if r.chance(0.5) { qs } else { rand_joints(&mut r, PI) };
+            let mut l = Line::new("C17", &format!("{}/forward_transformed", rfam), "fwd_tr");
+            ks.encode(&mut l);
+            l.iso(&fr).j6(&qs).j6(&prev).arrow();
+            match catch(std::panic::AssertUnwindSafe(|| f.forward_transformed(&qs, &prev))) {
+                Some((sols, pose)) => { l.sols(&sols).iso(&pose); } None => { l.s("panic"); } }
+            l.emit();
+        }
+    }
+}
+
+// ---------------------------------------------------------------- C15 Jacobian
+use nalgebra::{Matrix6, Vector6};
+use rs_opw_kinematics::jacobian::Jacobian;
+use rs_opw_kinematics::kinematic_traits::Kinematics;
+use rs_opw_kinematics::kinematics_impl::OPWKinematics;
+
+struct Dyn(std::sync::Arc<dyn Kinematics>);
+impl Kinematics for Dyn {
+    fn inverse(&self, p: &rs_opw_kinematics::kinematic_traits::Pose) -> rs_opw_kinematics::kinematic_traits::Solutions { self.0.inverse(p) }
+    fn inverse_continuing(&self, p: &rs_opw_kinematics::kinematic_traits::Pose, q: &Joints) -> rs_opw_kinematics::kinematic_traits::Solutions { self.0.inverse_continuing(p, q) }
+    fn forward(&self, q: &Joints) -> rs_opw_kinematics::kinematic_traits::Pose { self.0.forward(q) }
+    fn inverse_5dof(&self, p: &rs_opw_kinematics::kinematic_traits::Pose, j6: f64) -> rs_opw_kinematics::kinematic_traits::Solutions { self.0.inverse_5dof(p, j6) }
+    fn inverse_continuing_5dof(&self, p: &rs_opw_kinematics::kinematic_traits::Pose, q: &Joints) -> rs_opw_kinematics::kinematic_traits::Solutions { self.0.inverse_continuing_5dof(p, q) }
+    fn constraints(&self) -> &Option<Constraints> { self.0.constraints() }
+    fn kinematic_singularity(&self, q: &Joints) -> Option<rs_opw_kinematics::kinematic_traits::Singularity> { self.0.kinematic_singularity(q) }
+    fn forward_with_joint_poses(&self, q: &Joints) -> [rs_opw_kinematics::kinematic_traits::Pose; 6] { self.0.forward_with_joint_poses(q) }
+}
+
+fn v6(l: &mut Line, v: &[f64; 6]) { for x in v { l.f(*x); } }
+
+pub fn c15(seed: u64, n: usize) {
+    let mut r = Rng::new(seed ^ 0xC15);
+    let _ = OPWKinematics::new;
+    for i in 0..n {
+        let (rfam, p) = gen_params(&mut r);
+        let mut ks = KSpec::bare(p);
+        let mut fam = rfam.clone();
+        if i % 3 == 1 { let d = 1 + r.below(2); ks.stack = gen_stack(&mut r, d, false, false); fam.push_str("/wrapped"); }
+        if i % 7 == 3 { let d = r.below(6); let mut c = r.below(6); if c == d { c = (c + 1) % 6; } ks.stack.push(Wrap::P(r.range(-1.0, 1.0), d, c)); fam.push_str("/para"); }
+        let robot = Dyn(ks.build());
+        let mut q = rand_joints(&mut r, PI);
+        let eps = *r.pick(&[1e-7, 1e-6, 1e-5]);
+        if i % 6 == 5 {
+            // joint vector just below a point where the quaternion returned by forward() switches sign
+            // (branch change of from_rotation_matrix): q and q + eps*e_j straddle the switch
+            let j = r.below(6);
+            let quat = |x: f64, q0: &Joints| { let mut qq = *q0; qq[j] = x; robot.forward(&qq).rotation.into_inner().coords };
+            let mut x = -PI;
+            let mut found = None;
+            while x < PI {
+                let a = quat(x, &q); let b = quat(x + 0.01, &q);
+                if a.dot(&b) < 0.0 { found = Some((x, x + 0.01)); break; }
+                x += 0.01;
+            }
+            if let Some((mut lo, mut hi)) = found {
+                for _ in 0..60 {
+                    let mid = 0.5 * (lo + hi);
+                    if quat(lo, &q).dot(&quat(mid, &q)) < 0.0 { hi = mid; } else { lo = mid; }
+                    if hi - lo < eps * 0.25 { break; }
+                }
+                q[j] = lo - eps * 0.3;
+                if quat(q[j], &q).dot(&quat(q[j] + eps, &q)) < 0.0 { fam.push_str("/quat-sign-switch"); }
+            }
+        }
+        let jac = Jacobian::new(&robot, &q, eps);
+        // read the matrix through torques_from_vector(e_i): row i
+        let mut m = Matrix6::<f64>::zeros();
+        for row in 0..6 {
+            let mut e = Vector6::zeros(); e[row] = 1.0;
+            let t = jac.torques_from_vector(&e);
+            for col in 0..6 { m[(row, col)] = t[col]; }
+        }
+        let sv = m.svd(false, false).singular_values;
+        let cond = if sv.min() > 0.0 { sv.max() / sv.min() } else { f64::INFINITY };
+        let mut l = Line::new("C15", &format!("{}/eps{:.0e}", fam, eps), "jac");
+        ks.encode(&mut l);
+        l.j6(&q).f(eps).f(cond).arrow();
+        for row in 0..6 { for col in 0..6 { l.f(m[(row, col)]); } }
+        // a twist / wrench and the entry points
+        let x: [f64; 6] = [r.range(-1.0, 1.0), r.range(-1.0, 1.0), r.range(-1.0, 1.0), r.range(-1.0, 1.0), r.range(-1.0, 1.0), r.range(-1.0, 1.0)];
+        let xv = Vector6::from_column_slice(&x);
+        let iso = Isometry3::new(Vector3::new(x[0], x[1], x[2]), Vector3::new(x[3], x[4], x[5]));
+        v6(&mut l, &x); l.iso(&iso);
+        match jac.velocities_from_vector(&xv) { Ok(v) => { l.n(1); v6(&mut l, &v); } Err(_) => { l.n(0); } }
+        match jac.velocities(&iso) { Ok(v) => { l.n(1); v6(&mut l, &v); } Err(_) => { l.n(0); } }
+        match jac.velocities_fixed(x[0], x[1], x[2]) { Ok(v) => { l.n(1); v6(&mut l, &v); } Err(_) => { l.n(0); } }
+        v6(&mut l, &jac.torques_from_vector(&xv));
+        v6(&mut l, &jac.torques(&iso));
+        l.emit();
+    }
+}
